@@ -15,7 +15,10 @@ def run(ctx):
                 "candidate set of observed non-descendants, all back-door / front-door sets, do-graphs and interventional tables for single "
                 "and two-variable do-sets. distinct = (instance, latents, x, y); non-trivial iff x has a parent or a directed path to y exists.")
     ctx.assumptions += ["strictly positive CPDs (interventional conditionals are defined everywhere)",
-                        "queries on variables inside the do-set or among its parents are refused by the engine and not asked"]
+                        "queries on variables inside the do-set or among its parents are refused by the engine and not asked",
+                        "the adjustment-set criterion API (is_valid_*, get_all_*) documents and enforces string variable names "
+                        "(utils.sets._variable_or_iterable_to_set raises ValueError): asked with string names only; do(), query() and "
+                        "get_minimal_adjustment_set are also exercised with int and tuple names"]
     shapes = ["chain3", "fork3", "collider3", "tri3", "diamond", "collider_desc", "confmed", "frontdoor", "family3", "fork4", "mshape", "student", "chain_coll"]
     if not ctx.thorough:
         shapes = ["chain3", "fork3", "tri3", "diamond", "collider_desc", "confmed", "frontdoor", "mshape", "student"]
@@ -73,10 +76,11 @@ def replay_gen(payload):
     hs = int(os.environ.get("PYTHONHASHSEED", "0"))
     insts = {i["id"]: i for i in payload["insts"]}
     fails, ncalls = [], 0
-    for case in payload["cases"]:
+    # every case under string names (full API) and once more under int or tuple names (C16: representation independence)
+    for case, vk in [(c, k) for c in payload["cases"] for k in ("str", rng.choice(["int", "tuple"]))]:
         base = insts[case["inst"]]
         inst = dict(base, latents=case["latents"])
-        conc = Conc(inst, rng, "str", "str")
+        conc = Conc(inst, rng, vk, "any" if vk != "str" else rng.choice(["str", "any"]))
         model = build_bn(inst, conc, rng)
         vn, inv = conc.vn, conc.inv
         x, y = case["x"], case["y"]
@@ -84,6 +88,8 @@ def replay_gen(payload):
 
         def fail(api, clause, obs, exp=None, **feat):
             feat.setdefault("has_latents", bool(lat))
+            if vk != "str":
+                feat.setdefault("var_kind", vk)
             fails.append({"api": api, "clause": clause, "features": feat,
                           "case": {"inst": base, "expected": case, "seed": payload["seed"], "hashseed": hs},
                           "observed": obs, "expected": exp})
@@ -91,7 +97,8 @@ def replay_gen(payload):
         bd_all = {frozenset(z) for z in case["bd_all"]}
         fd_all = {frozenset(z) for z in case["fd_all"]}
         # ---- validity tests on candidate sets of observed non-descendants
-        for t in case["bd"]:
+        # (the criterion API documents and enforces string names: utils.sets._variable_or_iterable_to_set raises ValueError otherwise)
+        for t in (case["bd"] if vk == "str" else []):
             ncalls += 2
             z = [vn[v] for v in t["z"]]
             rng.shuffle(z)
@@ -110,21 +117,29 @@ def replay_gen(payload):
         # ---- enumerations
         ncalls += 3
         try:
+            if vk != "str":
+                raise KeyError("skip")
             sets = ci.get_all_backdoor_adjustment_sets(vn[x], vn[y])
             sets = [frozenset(inv[v] for v in s) for s in sets] if sets else [frozenset()]
             bad = [sorted(s) for s in sets if s not in bd_all]
             if bad:
                 fail("CausalInference.get_all_backdoor_adjustment_sets", "set_violates_backdoor_criterion", bad, case["bd_all"])
+        except KeyError:
+            pass
         except ValueError:
             if bd_all:
                 fail("CausalInference.get_all_backdoor_adjustment_sets", "none_found_but_exists", None, case["bd_all"])
         except Exception as ex:  # noqa
             fail("CausalInference.get_all_backdoor_adjustment_sets", "raises", repr(ex)[:200])
         try:
+            if vk != "str":
+                raise KeyError("skip")
             sets = ci.get_all_frontdoor_adjustment_sets(vn[x], vn[y])
             bad = [sorted(inv[v] for v in s) for s in sets if frozenset(inv[v] for v in s) not in fd_all]
             if bad:
                 fail("CausalInference.get_all_frontdoor_adjustment_sets", "set_violates_frontdoor_criterion", bad, case["fd_all"])
+        except KeyError:
+            pass
         except Exception as ex:  # noqa
             fail("CausalInference.get_all_frontdoor_adjustment_sets", "raises", repr(ex)[:200])
         try:
@@ -142,7 +157,7 @@ def replay_gen(payload):
             ncalls += 1
             nodes = [vn[v] for v in S]
             try:
-                m2 = model.do(nodes if len(nodes) > 1 else nodes[0], inplace=False)
+                m2 = model.do(nodes if (len(nodes) > 1 or vk == "tuple") else nodes[0], inplace=False)
             except Exception as ex:  # noqa
                 fail("BayesianNetwork.do", "raises", repr(ex)[:200])
                 continue
